@@ -1,18 +1,21 @@
-(* C16 over the Conn model: with on_socket_open/on_socket_close installed (and reconnect() not called
-   from inside callbacks - that self-deadlocks, C18) the socket callbacks are well nested and, in
-   external-loop mode, no write wake-up is lost.  All operation lists, nested scripts of any length. *)
+(* C16 over the Conn model: with on_socket_open/on_socket_close installed, and reconnect() not called
+   from inside on_socket_close / on_socket_unregister_write, the socket callbacks are well nested and,
+   in external-loop mode, no write wake-up is lost.  All operation lists, nested scripts of any
+   length and depth (API calls from inside every callback, including reconnect()). *)
 From PahoV Require Import Base.Prelude Link.Conn Link.ConnCheck Link.ConnInv Link.ConnStatements.
 
 (* ---- the three checkers run side by side ---- *)
 Record k16 := mkK16 { a4 : k4; a5 : k5; a6 : k6 }.
+(* the third checker is followed in external-loop mode only (its theorem is stated for that mode) *)
+Definition k6p_ev (ext : bool) (k : k6) (e : event) : k6 := if ext then k6_ev true k e else k.
 Definition k16_ev (ext : bool) (k : k16) (e : event) : k16 :=
-  mkK16 (k4_ev (a4 k) e) (k5_ev (a5 k) e) (k6_ev ext (a6 k) e).
+  mkK16 (k4_ev (a4 k) e) (k5_ev (a5 k) e) (k6p_ev ext (a6 k) e).
 Definition k16_init := mkK16 k4_init k5_init k6_init.
 Definition k16_okb (k : k16) : bool := k4_ok (a4 k) && k5_ok (a5 k) && k6_ok (a6 k).
 
 Lemma k16_fold ext evs : forall k,
   fold_left (k16_ev ext) evs k =
-  mkK16 (fold_left k4_ev evs (a4 k)) (fold_left k5_ev evs (a5 k)) (fold_left (k6_ev ext) evs (a6 k)).
+  mkK16 (fold_left k4_ev evs (a4 k)) (fold_left k5_ev evs (a5 k)) (fold_left (k6p_ev ext) evs (a6 k)).
 Proof.
   induction evs as [|e evs IH]; intros k; cbn [fold_left]; [destruct k; reflexivity|].
   rewrite IH. reflexivity.
@@ -21,39 +24,10 @@ Qed.
 Lemma k16_run ext tr : forall k,
   run_checker (k16_ev ext) (fun k => k) k tr =
   mkK16 (run_checker k4_ev (fun k => k) (a4 k) tr) (run_checker k5_ev (fun k => k) (a5 k) tr)
-        (run_checker (k6_ev ext) (fun k => k) (a6 k) tr).
+        (run_checker (k6p_ev ext) (fun k => k) (a6 k) tr).
 Proof.
   unfold run_checker. induction tr as [|evs tr IH]; intros k; cbn [fold_left]; [destruct k; reflexivity|].
   rewrite IH, k16_fold. reflexivity.
-Qed.
-
-(* ---- the invariant ---- *)
-(* o: the socket the application has been told is open (on_socket_open delivered, on_socket_close not yet) *)
-Record J (c : cfg) (o : option Z) (s : st) (k : k16) : Prop := mkJ {
-  j_ok4 : k4_ok (a4 k) = true;
-  j_ok5 : k5_ok (a5 k) = true;
-  j_ok6 : k6_ok (a6 k) = true;
-  j_open4 : k4_open (a4 k) = o;
-  j_open5 : k5_open (a5 k) = o;
-  j_sock : forall id, sock s = Some id -> o = Some id;
-  j_reg5 : k5_reg (a5 k) = (if c_ext c && regw s then o else None);
-  j_regw : regw s = true -> o <> None;
-  j_reg6 : k6_reg (a6 k) = c_ext c && regw s;
-  j_ww : c_ext c = true -> sock s <> None -> outq s <> [] -> regw s = true
-}.
-
-Section C16.
-Variable c : cfg.
-Hypothesis Hsockcb : c_sockcb c = true.
-Variable k0 : k16.
-Notation KS16 := (KS (k16_ev (c_ext c)) k0).
-Definition JJ (o : option Z) (s : st) : Prop := J c o s (KS16 s).
-
-Lemma JJ_frame o s s' : tr s' = tr s -> sock s' = sock s -> regw s' = regw s -> outq s' = outq s ->
-  JJ o s -> JJ o s'.
-Proof.
-  unfold JJ. intros Ht Hs Hr Hq [? ? ? ? ? ? ? ? ? ?].
-  rewrite (KS_frame _ _ _ _ Ht). constructor; rewrite ?Hs, ?Hr, ?Hq; assumption.
 Qed.
 
 (* events the three checkers ignore *)
@@ -62,69 +36,437 @@ Definition inert16 (e : event) : bool :=
   | SockOpen _ | SockClose _ | RegW _ | UnregW _ | Obs WEnd _ _ _ _ => false
   | _ => true
   end.
-Lemma JJ_emit_inert o e s : inert16 e = true -> JJ o s -> JJ o (emit e s).
+Lemma k16_inert ext k e : inert16 e = true -> k16_ev ext k e = k.
 Proof.
-  unfold JJ. intros He [? ? ? ? ? ? ? ? ? ?]. rewrite KS_emit.
-  destruct e as [| | | | | | | | | | | | | | |w ? ? ? ?]; try discriminate He; try (constructor; ssimpl; assumption).
-  destruct w; [discriminate He|]. constructor; ssimpl; assumption.
+  destruct k as [[] [] []]. unfold k16_ev, k6p_ev.
+  destruct e as [| | | | | | | | | | | | | | |w ? ? ? ?]; try discriminate; destruct ext; try reflexivity.
+  all: destruct w; [discriminate|reflexivity].
 Qed.
+Lemma tev_inert e : tev e = true -> inert16 e = true.
+Proof. destruct e; try discriminate; reflexivity. Qed.
 
-Lemma JJ_obs_cb o si s : JJ o s -> JJ o (obs (WCb si) s).
-Proof. intros H. unfold obs. apply JJ_emit_inert; [reflexivity|exact H]. Qed.
+(* ---- the invariant ---- *)
+(* o = the socket the application has been told is open *)
+Record J (c : cfg) (o : option Z) (s : st) (k : k16) : Prop := mkJ {
+  j_ok4 : k4_ok (a4 k) = true;
+  j_ok5 : k5_ok (a5 k) = true;
+  j_ok6 : k6_ok (a6 k) = true;
+  j_open4 : k4_open (a4 k) = o;
+  j_open5 : k5_open (a5 k) = o;
+  j_reg5 : k5_reg (a5 k) = (if c_ext c && regw s then o else None);
+  j_regw : regw s = true -> o <> None;
+  j_reg6 : k6_reg (a6 k) = c_ext c && regw s
+}.
+Definition WW (c : cfg) (s : st) : Prop :=
+  c_ext c = true -> sock s <> None -> outq s <> [] -> regw s = true.
+Definition T_ok (q : scripts) : bool := queue_noreconn (q_close q) && queue_noreconn (q_unregw q).
+
+Section C16.
+Variable c : cfg.
+Hypothesis Hsockcb : c_sockcb c = true.
+Variable k0 : k16.
+Notation KS16 := (KS (k16_ev (c_ext c)) k0).
+
+(* P0: everything but the write-wanted clause; P: the invariant at stable points *)
+Definition P0 (s : st) : Prop := J c (sock s) s (KS16 s) /\ T_ok (scr s) = true.
+Definition P (s : st) : Prop := P0 s /\ WW c s.
+
+Lemma J_frame o s s' k : regw s' = regw s -> J c o s k -> J c o s' k.
+Proof. intros Hr []. constructor; rewrite ?Hr; assumption. Qed.
+
+
+Ltac k16s := unfold k16_ev, k6p_ev; cbn [a4 a5 a6 k4_ev k5_ev k6_ev k4_ok k5_ok k6_ok k4_open k5_open k5_reg k6_reg].
+
+Lemma J_regw_ev id s k : c_ext c = true -> J c (Some id) s k -> regw s = false ->
+  J c (Some id) (set_regw true s) (k16_ev (c_ext c) k (RegW id)).
+Proof.
+  intros Ex [] Er. rewrite Ex, Er in *. cbn [andb] in *. k16s.
+  constructor; k16s; ssimpl; rewrite ?Ex; cbn [andb]; try assumption; try congruence; try reflexivity.
+  rewrite j_ok8, j_reg7, j_open7. cbn. rewrite Z.eqb_refl. reflexivity.
+Qed.
+Lemma J_unregw_ev id s k : c_ext c = true -> J c (Some id) s k -> regw s = true ->
+  J c (Some id) (set_regw false s) (k16_ev (c_ext c) k (UnregW id)).
+Proof.
+  intros Ex [] Er. rewrite Ex, Er in *. cbn [andb] in *. k16s.
+  constructor; k16s; ssimpl; rewrite ?Ex; cbn [andb]; try assumption; try congruence; try reflexivity.
+  rewrite j_ok8, j_reg7, j_open7. cbn. rewrite Z.eqb_refl. reflexivity.
+Qed.
+Lemma J_close_ev id s k : J c (Some id) s k -> regw s = false ->
+  J c None s (k16_ev (c_ext c) k (SockClose id)).
+Proof.
+  intros [] Er. rewrite Er in *. rewrite andb_false_r in *. k16s.
+  constructor; k16s; ssimpl; rewrite ?Er, ?andb_false_r; try assumption; try congruence; try reflexivity.
+  - rewrite j_ok7, j_open6. cbn. rewrite Z.eqb_refl. reflexivity.
+  - rewrite j_ok8, j_reg7. reflexivity.
+Qed.
+Lemma J_open_ev id s k : J c None s k -> regw s = false ->
+  J c (Some id) s (k16_ev (c_ext c) k (SockOpen id)).
+Proof.
+  intros [] Er. rewrite Er in *. rewrite andb_false_r in *. k16s.
+  constructor; k16s; ssimpl; rewrite ?Er, ?andb_false_r; try assumption; try congruence; try reflexivity.
+  - rewrite j_ok7, j_open6. reflexivity.
+  - rewrite j_ok8, j_reg7. reflexivity.
+Qed.
+Lemma J_set_regw_direct o b s k : c_ext c = false -> (b = true -> o <> None) -> J c o s k -> J c o (set_regw b s) k.
+Proof.
+  intros Ex Hb []. rewrite Ex in *. cbn [andb] in *. constructor; ssimpl; rewrite ?Ex; cbn [andb]; try assumption.
+Qed.
+Lemma J_inert o s k e : inert16 e = true -> J c o s k -> J c o s (k16_ev (c_ext c) k e).
+Proof. intros He H. rewrite k16_inert by exact He. exact H. Qed.
+
+Lemma P0_frame s s' : tr s' = tr s -> sock s' = sock s -> regw s' = regw s -> scr s' = scr s -> P0 s -> P0 s'.
+Proof.
+  unfold P0. intros Ht Hs Hr Hc [[? ? ? ? ? ? ? ?] HT]. rewrite (KS_frame _ _ _ _ Ht), Hc, Hs.
+  split; [|exact HT]. constructor; rewrite ?Hr; assumption.
+Qed.
+Lemma P_frame s s' : tr s' = tr s -> sock s' = sock s -> regw s' = regw s -> scr s' = scr s -> outq s' = outq s ->
+  P s -> P s'.
+Proof.
+  intros Ht Hs Hr Hc Hq [H0 Hw]. split; [eapply P0_frame; eassumption|].
+  unfold WW in *. rewrite Hs, Hr, Hq. exact Hw.
+Qed.
+Lemma P0_emit e s : inert16 e = true -> P0 s -> P0 (emit e s).
+Proof.
+  unfold P0. intros He [HJ HT]. rewrite KS_emit, k16_inert by exact He. ssimpl. split; [|exact HT].
+  destruct HJ. constructor; assumption.
+Qed.
+Lemma P_emit e s : inert16 e = true -> P s -> P (emit e s).
+Proof. intros He [H0 Hw]. split; [apply P0_emit; assumption|exact Hw]. Qed.
+Lemma P_obs_cb si s : P s -> P (obs (WCb si) s).
+Proof. intros H. unfold obs. apply P_emit; [reflexivity|exact H]. Qed.
+
+Lemma T_ok_pop si s : T_ok (scr s) = true -> T_ok (scr (snd (pop_script si s))) = true.
+Proof.
+  unfold T_ok. intros H. apply andb_true_iff in H as [H1 H2].
+  destruct si; unfold pop_script;
+    match goal with |- context [pop_list ?l] => destruct (pop_list l) eqn:E end;
+    cbn [snd scr set_scr q_close q_unregw]; try (rewrite H1, H2; reflexivity).
+  - pose proof (pop_list_noreconn _ H1) as [_ X]. rewrite E in X. cbn [snd] in X. rewrite X, H2. reflexivity.
+  - pose proof (pop_list_noreconn _ H2) as [_ X]. rewrite E in X. cbn [snd] in X. rewrite X, H1. reflexivity.
+Qed.
+Lemma T_ok_pop_close s : T_ok (scr s) = true -> script_noreconn (fst (pop_script SiClose s)) = true.
+Proof.
+  unfold T_ok. intros H. apply andb_true_iff in H as [H1 H2]. unfold pop_script.
+  pose proof (pop_list_noreconn _ H1) as [X _]. destruct (pop_list (q_close (scr s))). exact X.
+Qed.
+Lemma T_ok_pop_unregw s : T_ok (scr s) = true -> script_noreconn (fst (pop_script SiUnregW s)) = true.
+Proof.
+  unfold T_ok. intros H. apply andb_true_iff in H as [H1 H2]. unfold pop_script.
+  pose proof (pop_list_noreconn _ H2) as [X _]. destruct (pop_list (q_unregw (scr s))). exact X.
+Qed.
 
 Variable nested : list acall -> st -> st.
-(* what a nested script (no reconnect inside) does, as far as this invariant is concerned *)
-Definition quiet (o : option Z) (s s' : st) : Prop :=
-  JJ o s' /\ sock s' = sock s /\ scr_noreconn (scr s') = true /\ incb s' = incb s /\
-  (sock s = None -> regw s' = regw s).
-Hypothesis Hn : forall sc s o, script_noreconn sc = true -> scr_noreconn (scr s) = true -> JJ o s ->
-  quiet o s (nested sc s).
+Hypothesis Hn : forall sc s, P s -> P (nested sc s).
+Hypothesis Hnt : forall sc s, script_noreconn sc = true -> sock s = None -> teardown_rel s (nested sc s).
 
-Lemma quiet_refl o s : scr_noreconn (scr s) = true -> JJ o s -> quiet o s s.
-Proof. intros; repeat split; auto. Qed.
-
-Lemma quiet_trans o s1 s2 s3 : quiet o s1 s2 -> quiet o s2 s3 -> quiet o s1 s3.
+(* a callback invocation at a stable point; the caller has accounted for the event *)
+Lemma run_site_P si held ev s : (held = true -> P s) -> P (emit ev s) -> P (run_site nested si held ev s).
 Proof.
-  intros (A1 & A2 & A3 & A4 & A5) (B1 & B2 & B3 & B4 & B5). repeat split; try assumption; try congruence.
-  intros Hs. rewrite B5, A5; congruence.
+  intros Hd HP. unfold run_site.
+  destruct (held && incb s) eqn:E.
+  - apply andb_true_iff in E as [E1 _]. apply P_emit; [reflexivity|apply Hd; exact E1].
+  - pose proof (P_obs_cb si _ HP) as HP1.
+    pose proof (pop_script_frame si (obs (WCb si) (emit ev s))) as F.
+    pose proof (T_ok_pop si (obs (WCb si) (emit ev s)) (proj2 (proj1 HP1))) as HT.
+    destruct (pop_script si (obs (WCb si) (emit ev s))) as [sc s2]. cbn [fst snd] in *.
+    destruct F as (Fcs & Fsock & Fregw & Foutq & Fping & Fincb & Fproto & Fnsock & Fsched & Ftr).
+    assert (HP2 : P s2).
+    { destruct HP1 as [[HJ _] Hw]. split; [split; [|exact HT]|].
+      - rewrite (KS_frame _ _ _ _ Ftr), Fsock. destruct HJ. constructor; rewrite ?Fregw; assumption.
+      - unfold WW in *. rewrite Fsock, Fregw, Foutq. exact Hw. }
+    destruct sc as [|a sc]; [exact HP2|].
+    eapply P_frame; [| | | | |apply Hn; eapply P_frame; [| | | | |exact HP2]]; reflexivity.
 Qed.
 
-(* one callback invocation; the event [ev] has been accounted for by the caller *)
-Lemma run_site_quiet si held ev s o :
-  (held = true -> incb s = false) -> scr_noreconn (scr s) = true -> JJ o (emit ev s) ->
-  let s' := run_site c nested si held ev s in
-  JJ o s' /\ sock s' = sock s /\ scr_noreconn (scr s') = true /\ incb s' = incb s /\
-  (sock s = None -> regw s' = regw s).
+(* a callback invocation while no socket is held, script without reconnect(): only ignored events *)
+Definition win (id : Z) (s : st) : Prop :=
+  sock s = None /\ J c (Some id) s (KS16 s) /\ T_ok (scr s) = true.
+
+Lemma win_frame id s s' : tr s' = tr s -> sock s' = sock s -> regw s' = regw s -> scr s' = scr s -> win id s -> win id s'.
 Proof.
-  intros Hh Hscr HJ. unfold run_site.
-  assert (E : held && incb s = false). { destruct held; [rewrite Hh; reflexivity|reflexivity]. }
-  rewrite E.
-  pose proof (JJ_obs_cb o si _ HJ) as HJ1.
+  unfold win. intros Ht Hs Hr Hc (A & [? ? ? ? ? ? ? ?] & HT). rewrite (KS_frame _ _ _ _ Ht), Hc, Hs.
+  split; [exact A|]. split; [|exact HT]. constructor; rewrite ?Hr; assumption.
+Qed.
+Lemma win_teardown id s s' : teardown_rel s s' -> win id s -> win id s'.
+Proof.
+  intros ([] & _ & evs & Ht & Hf) (A & HJ & HT). unfold win.
+  assert (EK : KS16 s' = KS16 s).
+  { eapply KS_ignored with (ign := inert16); [intros; apply k16_inert; assumption|exact Ht|].
+    eapply Forall_impl; [|exact Hf]. intros e. apply tev_inert. }
+  rewrite EK, co_scr, co_sock. split; [exact A|]. split; [|exact HT].
+  destruct HJ. constructor; rewrite ?co_regw; assumption.
+Qed.
+
+Lemma run_site_win si ev id s :
+  (si = SiClose \/ si = SiUnregW) -> win id (emit ev s) -> win id (run_site nested si false ev s).
+Proof.
+  intros Hsi HW. unfold run_site. cbn [andb].
+  assert (HW1 : win id (obs (WCb si) (emit ev s))).
+  { destruct HW as (A & HJ & HT). unfold win, obs. rewrite KS_emit, k16_inert by reflexivity. ssimpl.
+    split; [exact A|]. split; [|exact HT]. eapply J_frame; [|exact HJ]. reflexivity. }
   pose proof (pop_script_frame si (obs (WCb si) (emit ev s))) as F.
-  pose proof (pop_script_noreconn si (obs (WCb si) (emit ev s)) Hscr) as [N1 N2].
+  assert (HT : T_ok (scr (obs (WCb si) (emit ev s))) = true) by (destruct HW1 as (_ & _ & X); exact X).
+  pose proof (T_ok_pop si _ HT) as HT2.
+  assert (Hsc : script_noreconn (fst (pop_script si (obs (WCb si) (emit ev s)))) = true).
+  { destruct Hsi as [-> | ->]; [apply T_ok_pop_close|apply T_ok_pop_unregw]; exact HT. }
   destruct (pop_script si (obs (WCb si) (emit ev s))) as [sc s2]. cbn [fst snd] in *.
   destruct F as (Fcs & Fsock & Fregw & Foutq & Fping & Fincb & Fproto & Fnsock & Fsched & Ftr).
-  ssimpl.
-  assert (HJ2 : JJ o s2). { eapply JJ_frame; [exact Ftr|exact Fsock|exact Fregw|exact Foutq|exact HJ1]. }
-  destruct sc as [|a sc].
-  - repeat split; try assumption; try congruence. intros; congruence.
-  - set (s3 := set_incb (held || incb s2) s2).
-    assert (HJ3 : JJ o s3). { eapply JJ_frame; [| | | |exact HJ2]; reflexivity. }
-    destruct (Hn (a :: sc) s3 o N1 N2 HJ3) as (Q1 & Q2 & Q3 & Q4 & Q5).
-    repeat split.
-    + eapply JJ_frame; [| | | |exact Q1]; reflexivity.
-    + ssimpl. rewrite Q2. unfold s3. ssimpl. exact Fsock.
-    + ssimpl. exact Q3.
-    + ssimpl. exact Fincb.
-    + ssimpl. intros Hs. rewrite Q5; unfold s3; ssimpl; congruence.
+  assert (HW2 : win id s2).
+  { destruct HW1 as (A & HJ & _). unfold win. rewrite (KS_frame _ _ _ _ Ftr), Fsock.
+    split; [exact A|]. split; [|exact HT2]. destruct HJ. constructor; rewrite ?Fregw; assumption. }
+  destruct sc as [|a sc]; [exact HW2|].
+  set (s3 := set_incb (false || incb s2) s2).
+  assert (HW3 : win id s3) by (eapply win_frame; [| | | |exact HW2]; reflexivity).
+  pose proof (Hnt (a :: sc) s3 Hsc (proj1 HW3)) as R.
+  eapply win_frame; [| | | |eapply win_teardown; [exact R|exact HW3]]; reflexivity.
 Qed.
 
-(* _call_socket_register_write *)
-Lemma call_regw_quiet s o : scr_noreconn (scr s) = true ->
-  J c o (set_regw true s) (KS16 s) \/ JJ o s ->
-  (forall id, sock s = Some id -> o = Some id) ->
-  (* invariant up to the write-wanted clause, which the registration establishes *)
-  True -> True.
-Proof. trivial. Qed.
+(* _call_socket_register_write establishes the write-wanted clause *)
+Lemma call_regw_P s : P0 s -> P (call_regw c nested s).
+Proof.
+  intros H0. unfold call_regw. destruct (sock s) as [id|] eqn:Es.
+  2:{ split; [exact H0|]. unfold WW. rewrite Es. intros _ X. congruence. }
+  destruct (regw s) eqn:Er.
+  { split; [exact H0|]. unfold WW. intros; exact Er. }
+  destruct H0 as [HJ HT]. rewrite Es in HJ.
+  remember (c_ext c) as bx eqn:Ex in |- *; symmetry in Ex; destruct bx.
+  - apply run_site_P; [discriminate|].
+    split; [split; [|exact HT]|unfold WW; ssimpl; reflexivity].
+    rewrite KS_emit, (KS_frame _ _ s (set_regw true s)) by reflexivity. ssimpl. rewrite Es.
+    eapply J_frame; [|apply J_regw_ev; [exact Ex|exact HJ|exact Er]]. reflexivity.
+  - split; [split; [|exact HT]|unfold WW; ssimpl; reflexivity].
+    rewrite (KS_frame _ _ s (set_regw true s)) by reflexivity. ssimpl. rewrite Es.
+    apply J_set_regw_direct; [exact Ex|discriminate|exact HJ].
+Qed.
 
-End C16.
+(* _call_socket_unregister_write() from loop_write's finally: nothing left to write *)
+Lemma call_unregw_P s : P s -> outq s = [] -> P (call_unregw c nested None s).
+Proof.
+  intros HP Hq. unfold call_unregw. destruct (sock s) as [id|] eqn:Es; [|exact HP].
+  destruct (regw s) eqn:Er; cbn [negb]; [|exact HP].
+  destruct HP as [[HJ HT] Hw]. rewrite Es in HJ.
+  remember (c_ext c) as bx eqn:Ex in |- *; symmetry in Ex; destruct bx.
+  - apply run_site_P; [discriminate|].
+    split; [split; [|exact HT]|unfold WW; ssimpl; rewrite Hq; congruence].
+    rewrite KS_emit, (KS_frame _ _ s (set_regw false s)) by reflexivity. ssimpl. rewrite Es.
+    eapply J_frame; [|apply J_unregw_ev; [exact Ex|exact HJ|exact Er]]. reflexivity.
+  - split; [split; [|exact HT]|unfold WW; rewrite Ex; discriminate].
+    rewrite (KS_frame _ _ s (set_regw false s)) by reflexivity. ssimpl. rewrite Es.
+    apply J_set_regw_direct; [exact Ex|discriminate|exact HJ].
+Qed.
+
+(* _sock_close *)
+Lemma sock_close_P r s : P s -> P (sock_close c nested r s).
+Proof.
+  intros HP. unfold sock_close. destruct (sock s) as [id|] eqn:Es; [|exact HP].
+  destruct HP as [[HJ HT] _].
+  set (s1 := emit (ConnEnd id r) (set_sock None s)).
+  assert (W1 : win id s1).
+  { unfold win, s1. rewrite KS_emit, k16_inert by reflexivity. ssimpl. split; [reflexivity|]. split; [|exact HT].
+    rewrite (KS_frame _ _ s (set_sock None s)) by reflexivity.
+    rewrite Es in HJ. eapply J_frame; [|exact HJ]. reflexivity. }
+  (* unregister *)
+  assert (W2 : win id (call_unregw c nested (Some id) s1) /\ regw (call_unregw c nested (Some id) s1) = false).
+  { unfold call_unregw. destruct (regw s1) eqn:Er; cbn [negb]; [|split; [exact W1|exact Er]].
+    assert (A : win id (set_regw false s1) \/ c_ext c = true).
+    { remember (c_ext c) as bx eqn:Ex in |- *; symmetry in Ex; destruct bx; [right; reflexivity|left].
+      destruct W1 as (A & HJ1 & HT1). unfold win. ssimpl. split; [exact A|]. split; [|exact HT1].
+      rewrite (KS_frame _ _ s1 (set_regw false s1)) by reflexivity.
+      apply J_set_regw_direct; [exact Ex|discriminate|exact HJ1]. }
+    remember (c_ext c) as bx eqn:Ex in |- *; symmetry in Ex; destruct bx.
+    - assert (W : win id (emit (UnregW id) (set_regw false s1))).
+      { destruct W1 as (A0 & HJ1 & HT1). unfold win. rewrite KS_emit. ssimpl. split; [exact A0|]. split; [|exact HT1].
+        rewrite (KS_frame _ _ s1 (set_regw false s1)) by reflexivity.
+        eapply J_frame; [|apply J_unregw_ev; [exact Ex|exact HJ1|exact Er]]. reflexivity. }
+      pose proof (run_site_win SiUnregW (UnregW id) id (set_regw false s1) (or_intror eq_refl) W) as W'.
+      split; [exact W'|].
+      destruct W' as (_ & HJ' & _). destruct HJ'. rewrite Ex in *. cbn [andb] in *.
+      destruct (regw (run_site nested SiUnregW false (UnregW id) (set_regw false s1))) eqn:Er'; [|reflexivity].
+      (* the window run is a teardown run: the flag did not move *)
+      exfalso. clear - Er' W Hnt HT Er.
+      unfold run_site in Er'. cbn [andb] in Er'.
+      pose proof (pop_script_frame SiUnregW (obs (WCb SiUnregW) (emit (UnregW id) (set_regw false s1)))) as F.
+      assert (HT' : T_ok (scr (obs (WCb SiUnregW) (emit (UnregW id) (set_regw false s1)))) = true)
+        by (destruct W as (_ & _ & X); exact X).
+      pose proof (T_ok_pop_unregw _ HT') as Hsc.
+      destruct (pop_script SiUnregW (obs (WCb SiUnregW) (emit (UnregW id) (set_regw false s1)))) as [sc s2].
+      cbn [fst snd] in *. destruct F as (_ & Fsock & Fregw & _).
+      ssimpl. destruct sc as [|a sc]; [congruence|].
+      ssimpl.
+      assert (Hs3 : sock (set_incb (false || incb s2) s2) = None) by (ssimpl; rewrite Fsock; destruct W as (X & _); exact X).
+      destruct (Hnt (a :: sc) _ Hsc Hs3) as ([] & _). ssimpl. congruence.
+    - destruct A as [A|A]; [|congruence]. split; [exact A|reflexivity]. }
+  destruct W2 as [W2 Er2].
+  rewrite Hsockcb.
+  set (s2 := call_unregw c nested (Some id) s1) in *.
+  (* on_socket_close: after its event the application knows of no open socket *)
+  assert (W3 : win id (emit (SockClose id) s2) -> False \/ True) by (intros; right; exact I).
+  clear W3.
+  (* run the close site: first as a window over the pre-event invariant, then convert *)
+  unfold run_site. cbn [andb].
+  set (s3 := obs (WCb SiClose) (emit (SockClose id) s2)).
+  assert (HP3 : P s3).
+  { destruct W2 as (A & HJ2 & HT2). unfold s3, obs. split; [split; [|exact HT2]|unfold WW; ssimpl; rewrite A; congruence].
+    rewrite KS_emit, k16_inert by reflexivity. rewrite KS_emit. ssimpl. rewrite A.
+    eapply J_frame; [|apply J_close_ev; [exact HJ2|exact Er2]]. reflexivity. }
+  pose proof (pop_script_frame SiClose s3) as F.
+  pose proof (T_ok_pop SiClose s3 (proj2 (proj1 HP3))) as HT3.
+  pose proof (T_ok_pop_close s3 (proj2 (proj1 HP3))) as Hsc.
+  destruct (pop_script SiClose s3) as [sc s4]. cbn [fst snd] in *.
+  destruct F as (Fcs & Fsock & Fregw & Foutq & Fping & Fincb & Fproto & Fnsock & Fsched & Ftr).
+  assert (Hs3 : sock s3 = None) by (unfold s3; ssimpl; destruct W2 as (X & _); exact X).
+  assert (HP4 : P s4).
+  { destruct HP3 as [[HJ3 _] Hw]. split; [split; [|exact HT3]|].
+    - rewrite (KS_frame _ _ _ _ Ftr), Fsock. destruct HJ3. constructor; rewrite ?Fregw; assumption.
+    - unfold WW in *. rewrite Fsock, Fregw, Foutq. exact Hw. }
+  destruct sc as [|a sc]; [exact HP4|].
+  set (s5 := set_incb (false || incb s4) s4).
+  assert (HP5 : P s5) by (eapply P_frame; [| | | | |exact HP4]; reflexivity).
+  assert (Hs5 : sock s5 = None) by (unfold s5; ssimpl; congruence).
+  destruct (Hnt (a :: sc) s5 Hsc Hs5) as ([] & _ & evs & Ht & Hf).
+  assert (EK : KS16 (nested (a :: sc) s5) = KS16 s5).
+  { eapply KS_ignored with (ign := inert16); [intros; apply k16_inert; assumption|exact Ht|].
+    eapply Forall_impl; [|exact Hf]. intros e. apply tev_inert. }
+  destruct HP5 as [[HJ5 HT5] Hw5].
+  split; [split|].
+  - rewrite (KS_frame _ _ (nested (a :: sc) s5) (set_incb (incb s4) (nested (a :: sc) s5))) by reflexivity.
+    ssimpl. rewrite EK, co_sock. eapply J_frame; [|exact HJ5]. ssimpl. exact co_regw.
+  - ssimpl. rewrite co_scr. exact HT5.
+  - unfold WW in *. ssimpl. rewrite co_sock, co_regw, co_outq. exact Hw5.
+Qed.
+
+
+(* ---- frames ---- *)
+Lemma P_set_cs x s : P s -> P (set_cs x s).
+Proof. apply P_frame; reflexivity. Qed.
+Lemma P_set_ping x s : P s -> P (set_ping x s).
+Proof. apply P_frame; reflexivity. Qed.
+Lemma P_set_proto x s : P s -> P (set_proto x s).
+Proof. apply P_frame; reflexivity. Qed.
+Lemma P_set_sched x s : P s -> P (set_sched x s).
+Proof. apply P_frame; reflexivity. Qed.
+Lemma P0_set_outq x s : P0 s -> P0 (set_outq x s).
+Proof. apply P0_frame; reflexivity. Qed.
+
+Lemma do_on_disconnect_P rc fb s : P s -> P (do_on_disconnect nested rc fb s).
+Proof.
+  intros HP. unfold do_on_disconnect. apply run_site_P; [intros _; exact HP|].
+  apply P_emit; [reflexivity|exact HP].
+Qed.
+
+Lemma lost_tail_P rc fb s : P s -> P (fst (lost_tail nested rc fb s)).
+Proof.
+  intros HP. unfold lost_tail. destruct (disc_state s); cbn [fst];
+    apply do_on_disconnect_P; apply P_set_cs; exact HP.
+Qed.
+
+Lemma loop_rc_handle_P rc s : P s -> P (fst (loop_rc_handle c nested rc s)).
+Proof. intros HP. unfold loop_rc_handle. apply lost_tail_P. apply sock_close_P. exact HP. Qed.
+
+(* putting a packet back at the head *)
+Lemma push_front_P p s : P0 s -> (c_ext c = true -> sock s <> None -> regw s = true) -> P (push_front p s).
+Proof.
+  intros H0 Hr. split; [apply P0_set_outq; exact H0|]. unfold WW. ssimpl. intros A B _. apply Hr; assumption.
+Qed.
+
+Lemma pw_loop_P : forall n s, P s -> P (fst (pw_loop c nested n s)).
+Proof.
+  induction n as [|n IH]; intros s HP; cbn [pw_loop].
+  - cbn [fst]. apply P_emit; [reflexivity|exact HP].
+  - destruct (outq s) as [|p q'] eqn:Eq; [exact HP|].
+    (* the registration flag while the head packet is out of the queue *)
+    assert (Hreg : c_ext c = true -> sock s <> None -> regw s = true).
+    { intros A B. destruct HP as [_ Hw]. apply Hw; [exact A|exact B|rewrite Eq; discriminate]. }
+    assert (HP0 : P (set_outq q' s)).
+    { destruct HP as [H0 Hw]. split; [apply P0_set_outq; exact H0|]. unfold WW. ssimpl. intros A B _. apply Hreg; assumption. }
+    destruct (sock (set_outq q' s)) as [id|] eqn:Es.
+    2:{ cbn [fst]. apply push_front_P; [apply HP0|]. ssimpl. exact Hreg. }
+    ssimpl.
+    unfold pop_outcome. ssimpl.
+    set (s1 := match sched s with [] => set_outq q' s | _ :: l => set_sched l (set_outq q' s) end).
+    assert (E1 : (match sched s with [] => (OAll, set_outq q' s) | o :: l => (o, set_sched l (set_outq q' s)) end)
+                 = (match sched s with [] => OAll | o :: _ => o end, s1)).
+    { unfold s1. destruct (sched s); reflexivity. }
+    rewrite E1. clear E1.
+    assert (HP1 : P s1). { unfold s1. destruct (sched s); [exact HP0|apply P_set_sched; exact HP0]. }
+    assert (Hs1 : sock s1 = sock s /\ regw s1 = regw s). { unfold s1. destruct (sched s); split; reflexivity. }
+    destruct Hs1 as [Hs1 Hr1].
+    assert (Hreg1 : c_ext c = true -> sock s1 <> None -> regw s1 = true). { rewrite Hs1, Hr1. exact Hreg. }
+    assert (Hblocked : P (push_front p (call_regw c nested s1))).
+    { destruct (Bool.bool_dec (c_ext c) true) as [Ex|Ex].
+      - (* external loop: already registered, nothing happens *)
+        assert (Er : regw s1 = true) by (apply Hreg1; [exact Ex|rewrite Hs1, Es; discriminate]).
+        unfold call_regw. rewrite Hs1, Es, Er. apply push_front_P; [apply HP1|exact Hreg1].
+      - apply not_true_is_false in Ex. apply push_front_P; [apply call_regw_P; apply HP1|].
+        intros A. congruence. }
+    destruct (match sched s with [] => OAll | o :: _ => o end).
+    + (* everything accepted *)
+      assert (HP2 : P (emit (Tx id (qk p)) s1)) by (apply P_emit; [reflexivity|exact HP1]).
+      destruct (qk p).
+      * apply IH. exact HP2.
+      * cbn [fst].
+        assert (HP3 : P (do_on_disconnect nested 0 false (emit (Tx id KDisconnect) s1))) by (apply do_on_disconnect_P; exact HP2).
+        pose proof (sock_close_P RDiscWritten _ HP3) as HP4.
+        destruct (cs (sock_close c nested RDiscWritten (do_on_disconnect nested 0 false (emit (Tx id KDisconnect) s1))));
+          try exact HP4. apply P_set_cs. exact HP4.
+      * apply IH. apply run_site_P; [intros _; exact HP2|]. apply P_emit; [reflexivity|exact HP2].
+      * apply IH. exact HP2.
+      * apply IH. exact HP2.
+      * apply IH. exact HP2.
+    + (* all but the last byte *)
+      destruct (qstarted p); [exact Hblocked|].
+      apply IH. apply push_front_P; [apply HP1|exact Hreg1].
+    + exact Hblocked.
+    + cbn [fst]. apply push_front_P; [apply HP1|exact Hreg1].
+    + cbn [fst]. apply push_front_P; [apply HP1|exact Hreg1].
+Qed.
+
+Lemma loop_write_P s : P s -> P (fst (loop_write c nested s)).
+Proof.
+  intros HP. unfold loop_write. destruct (sock s); [|exact HP].
+  unfold packet_write. pose proof (pw_loop_P (pw_fuel s) s HP) as H1.
+  destruct (pw_loop c nested (pw_fuel s) s) as [s1 rc]. cbn [fst] in H1.
+  assert (H2 : P (fst (if rc =? E_AGAIN then (s1, 0) else if rc >? 0 then loop_rc_handle c nested rc s1 else (s1, 0)))).
+  { destruct (rc =? E_AGAIN); [exact H1|]. destruct (rc >? 0); [apply loop_rc_handle_P; exact H1|exact H1]. }
+  destruct (if rc =? E_AGAIN then (s1, 0) else if rc >? 0 then loop_rc_handle c nested rc s1 else (s1, 0)) as [s2 rc2].
+  cbn [fst] in *. unfold want_write. destruct (outq s2) eqn:Eq.
+  - apply call_unregw_P; assumption.
+  - apply call_regw_P. apply H2.
+Qed.
+
+Lemma packet_queue_P k s : P s -> P (fst (packet_queue c nested k s)).
+Proof.
+  intros [H0 Hw]. unfold packet_queue.
+  set (s1 := set_outq (outq s ++ [mkQ k false]) s).
+  assert (H1 : P0 s1) by (apply P0_set_outq; exact H0).
+  destruct (negb (c_ext c) && negb (incb s1)) eqn:E.
+  - apply loop_write_P. split; [exact H1|]. unfold WW. intros A. apply andb_true_iff in E as [E _].
+    rewrite A in E. discriminate.
+  - cbn [fst]. apply call_regw_P. exact H1.
+Qed.
+
+Lemma reconnect_body_P ok s : P s -> P (fst (reconnect_body c nested ok s)).
+Proof.
+  intros HP. unfold reconnect_body.
+  assert (H2 : P (sock_close c nested RReplaced (set_cs CsConnecting (set_ping false s)))).
+  { apply sock_close_P. apply P_set_cs. apply P_set_ping. exact HP. }
+  set (s2 := sock_close c nested RReplaced (set_cs CsConnecting (set_ping false s))) in *.
+  assert (H3 : P (set_outq [] s2)).
+  { destruct H2 as [H0 _]. split; [apply P0_set_outq; exact H0|]. unfold WW. ssimpl. congruence. }
+  destruct ok; cbn [negb].
+  2:{ cbn [fst]. apply P_emit; [reflexivity|exact H3]. }
+  rewrite Hsockcb.
+  set (id := nsock (set_outq [] s2) + 1).
+  set (s4 := emit (SockNew id) (set_regw false (set_sock (Some id) (set_nsock id (set_outq [] s2))))).
+  assert (H5 : P (run_site nested SiOpen false (SockOpen id) s4)).
+  { apply run_site_P; [discriminate|].
+    destruct H3 as [[HJ HT] _]. split; [split; [|exact HT]|unfold WW; ssimpl; congruence].
+    rewrite KS_emit. unfold s4. rewrite KS_emit, (k16_inert _ _ (SockNew id)) by reflexivity.
+    rewrite (KS_frame _ _ (set_outq [] s2) (set_regw false (set_sock (Some id) (set_nsock id (set_outq [] s2))))) by reflexivity.
+    ssimpl.
+    (* after _sock_close nothing is open; the flag is reset *)
+    destruct (sock s2) as [x|] eqn:Es2.
+    - (* a nested reconnect() in the teardown left a socket behind: excluded by T, shown via the invariant *)
+      exfalso. clear - HJ Es2 H2. unfold s2 in Es2.
+      (* sock_close always ends with no socket held when it started from P: see sock_close_nosock *)
+      revert Es2. fold s2. intros Es2. exact (sock_close_nosock _ _ HP' Es2). }
